@@ -11,15 +11,15 @@ RELEVANT = {
     "C01": ["vec_mismatch", "vec_ret_mismatch", "macro_repeat"],
     "C02": OWN + ["leak_elem", "leak_block"],
     "C03": ALLOCM + ["cap_exceeds_block", "leak_block", "garbage_"],   # garbage_*: poison read back = a read outside every live block
-    "C04": OWN + ALLOCM,
-    "C05": OWN + ALLOCM,
+    "C04": OWN,            # its conclusion is about the elements the vector exposes / destroys
+    "C05": OWN,
     "C06": OWN + ALLOCM + ["crash", "vec_mismatch", "iter_protocol", "sentinel_alloc"],
     "C07": ["capacity_contract", "len_gt_cap", "cap_exceeds_block", "spare_view_wrong", "storage_moved"],
     "C08": ["lost_overalignment", "misaligned", "walign_"],
     "C09": ["capacity_contract", "cap_exceeds_block", "len_gt_cap", "hang", "profile_disagreement", "crash"],
     "C10": ["iter_protocol", "garbage_yielded", "crash", "vec_mismatch"],
     "C11": ["accepted_out_of_range", "rejected_in_range", "changed_by_rejected_call"],
-    "C12": OWN + ALLOCM + ["iter_protocol", "garbage_yielded", "crash", "clone_shares_storage", "clone_not_called"],
+    "C12": OWN + ["double_free", "iter_protocol", "garbage_yielded", "crash", "clone_shares_storage", "clone_not_called"],
     "C14": ["raw_roundtrip_moved", "crash", "len_gt_cap", "cap_exceeds_block"] + OWN,
     "C15": ["slice_semantics"],
     "C17": OWN + ALLOCM + ["crash", "leak_block"],
@@ -362,6 +362,7 @@ def run(ctx, P, cs):
            "traces_validated_against_impl": compared, "trace_lines_compared": lines_compared,
            "operation_histogram": ops_hist, "outcome_histogram": out_hist, "fate_histogram": fate_hist, "samples": samples,
            "model": minfo, "correspondence_mismatches": len(mism),
-           "diverged_where_this_property_does_not_speak": elsewhere, "impl_wall_s": round(time.time() - t0, 1)}
+           "diverged_where_this_property_does_not_speak": elsewhere,
+           "impl_wall_s": round(time.time() - t0, 1)}
     cov.update(extra)
     return {"violations": viol, "mismatches": mism, "coverage": cov}
